@@ -102,6 +102,17 @@ class Q:
             return q + 1
         return q
 
+    def __round__(self, ndigits=None):
+        """round-half-even, as round(float)"""
+        if ndigits is not None:
+            raise TypeError('Q.__round__ with digits')
+        two_n = 2 * self.n + self.d
+        q = two_n // (2 * self.d)
+        tie = (two_n % (2 * self.d)) == 0
+        if tie and q % 2 != 0:
+            return q - 1
+        return q
+
     def __float__(self):
         return float(self.n) / self.d
 
